@@ -11,7 +11,7 @@ CHECKS = {
         category='exploration', design_ref='DESIGN.md §3 C01, §2.2, §2.4',
         technique='exhaustive small-format enumeration + Hypothesis wide formats vs independent exact-rational rounding oracle',
         text='Every small context of every family (float p<=4, EFloat/IEEE nbits<=6 with all NaN kinds/inf/eoffsets, fixed nbits<=5, Exp nbits<=4; '
-             'thorough: nbits<=9, p<=8) x 8 modes x overflow modes x NaN/inf options x all breakpoint operands x 5 carrier types x round/round_at/'
+             'thorough: nbits<=8, p<=6) x 8 modes x overflow modes x NaN/inf options x all breakpoint operands x 5 carrier types x round/round_at/'
              'round_integer/exact is compared (value, membership, inexact/overflow flags, exceptions) with an oracle written from the definition of the '
              'rounding modes over exact rationals; a Hypothesis layer covers wide formats (p<=300, |exp|<=10^4). Rounding is piecewise constant with '
              'failures living at breakpoints, so exhaustive breakpoint enumeration of all small formats is the strongest generated-input evidence available; it does not prove wide formats.',
